@@ -66,6 +66,40 @@ def sizes_for(n):
     return [None] + list(range(1, n + 1)) + [n + 1, n + 3]
 
 
+def load_corpus():
+    import json
+    import os
+    out = []
+    d = os.path.join(core.VERIF, 'corpus', PID)
+    if os.path.isdir(d):
+        for fn in sorted(os.listdir(d)):
+            if fn.endswith('.jsonl'):
+                for ln in open(os.path.join(d, fn)):
+                    if ln.strip():
+                        out.append(json.loads(ln))
+    return out
+
+
+def replay(chk, obj):
+    """re-run the failing case of a replay file on the current implementation"""
+    import json
+    pt, pp = _pt()
+    print(json.dumps(obj, indent=1)[:3000])
+    case = obj.get('case')
+    if isinstance(case, list) and len(case) == 3:
+        op, d, k = case
+        a = annot.undump(d)
+        n = len(a)
+        res = getattr(a.copy(), impl_fn(op))(k)
+        kk = n if k is None else k
+        print(f'{impl_fn(op)}({a.serialize()!r}, {k}) ->', [r.serialize() for r in res][:20], f'({len(res)} results)')
+        exp = [''.join(a._sequence[i] for i in idx) for idx in it_fn(op)(list(range(n)), kk)]
+        ok = [r._sequence for r in res] == exp and len(res) == expected_count(op, n, kk)
+        print('residue sequences as itertools over the residues:', ok)
+        return 0 if ok else 1
+    return 0
+
+
 def run(chk):
     pt, pp = _pt()
     tier = chk.tier
@@ -82,7 +116,10 @@ def run(chk):
                 'distinct = distinct protocol line')
     limit = 800 if tier == 'quick' else 50000
 
-    # ------------------------------------------------------------------ corpus
+    # ------------------------------------------------------------------ corpus (replayed first)
+    corpus = []
+    for c in load_corpus():
+        corpus.append((c['op'], annot.dump(pp.parse(c['seq'])), c['size']))
     # ------------------------------------------------------------------ correspondence: the four expansions
     n_ann = 90 if tier == 'quick' else 1200
     anns = []
@@ -116,6 +153,7 @@ def run(chk):
     def cmp_(im, m):
         return im == '~'.join(annot.canon_dump(x) for x in m.split('~')) if m else im == m
 
+    chk.correspond('corpus', DRV, corpus, line, impl, compare=cmp_)
     chk.correspond('expansions', DRV, cases, line, impl, compare=cmp_,
                    nontrivial_fn=lambda c, im: im.count('~') >= 1 and ('D' in im or '|L' in im))
 
@@ -192,6 +230,7 @@ def run(chk):
             return 'peptacular.%s(strings) differs from the annotation method' % impl_fn(op)
         return None
 
+    chk.oracle('corpus', corpus, o_expand, key_fn=lambda c: line(c))
     ocases = cases if chk.broken() else cases[::(3 if tier == 'quick' else 2)]
     chk.oracle('expansion_property', ocases, o_expand,
                nontrivial_fn=lambda c: '|D' in c[1] or '|L' in c[1], key_fn=lambda c: line(c))
